@@ -1,0 +1,34 @@
+//go:build verif
+
+package env
+
+// Machine-checked contracts for the deductive checks in /verif (see
+// /verif/DESIGN.md). Comment-only; compiled solely under the "verif" build tag.
+
+// New is used by the pipeline package without options.
+//@ func New
+//@   requires len(opts) == 0
+//@   assigns nothing
+//@   ensures [fresh] ret != nil && fresh(ret) && ret.env != nil && fresh(ret.env) && len(ret.env) == 0
+//@   loop 0
+//@     assigns nothing
+//@     invariant [none] $idx == 0
+
+//@ func (*Env).normaliseCase
+//@   requires e != nil
+//@   pure
+//@   assigns nothing
+//@   ensures [fold] ret == (e.caseInsensitive ? upper(key) : key)
+
+//@ func (*Env).Get
+//@   pure
+//@   assigns nothing
+//@   ensures [nil] e == nil ==> ret1 == false && ret0 == ""
+//@   ensures [get] e != nil ==> ret1 == has(e.env, e.caseInsensitive ? upper(key) : key) && (ret1 ==> ret0 == e.env[e.caseInsensitive ? upper(key) : key])
+
+//@ func (*Env).Set
+//@   requires e != nil && e.env != nil
+//@   assigns *e.env
+//@   ensures [set]  has(e.env, e.caseInsensitive ? upper(key) : key) && e.env[e.caseInsensitive ? upper(key) : key] == value
+//@   ensures [keep] forall k2 string :: {has(e.env, k2)} k2 != (e.caseInsensitive ? upper(key) : key) ==>
+//@       has(e.env, k2) == old(has(e.env, k2)) && e.env[k2] == old(e.env[k2])
